@@ -8,14 +8,17 @@ Two layers:
 * the *bookkeeping* (which rows / columns of the full linearised system go into the primary and the
   secondary block, in which order, and where `expand` puts the two partial solutions), transcribed
   branch for branch from the code — this is what `Props.lean` proves partition theorems about;
-* the *arithmetic* (sub-matrices, exact Gauss–Jordan over `Rat`, the reduced system and the expanded
-  solution) used by the driver; every inverse and every solve the driver reports is re-checked by
-  an exact matrix product before it is answered (certificate), so the elimination itself is not trusted.
+* the *arithmetic* (sub-matrices, the reduced system and the expanded solution) used by the driver;
+  inverses are computed by the exact Gauss–Jordan elimination `C37.inverse` (shared with property
+  C37, where it is proved to return a two-sided inverse whenever it returns anything).  `Props.lean`
+  proves that whatever `schurSolve` answers solves the full system — nothing is re-checked at run time.
 
 The full system `J x = r` is the one `EquationSystem.assemble()` returns: row blocks in the order in
 which equations were stored, inside an equation one block per grid in md-grid order; columns in
 global dof order.
 -/
+import PorepyVerif.C37.Model
+
 namespace PorepyVerif.C07
 
 /-! ## Layout of an equation system -/
@@ -83,6 +86,12 @@ def parseOk (eqs : List EqLayout) : EqReq → Bool
   | .restricted l =>
     l.all (fun p => decide (p.1 < eqs.length) &&
       p.2.all (fun g => decide (g ∈ ((eqs.getD p.1 []).map (·.1)))))
+
+/-- `_gridbased_equation_complement` raises `ValueError` (`np.hstack` of an empty list) for a
+    grid-restricted equation that was registered with an empty grid list -/
+def complementOk (eqs : List EqLayout) : EqReq → Bool
+  | .names _ => true
+  | .restricted l => l.all (fun p => !(eqs.getD p.1 []).isEmpty)
 
 /-! ## Row split (global row numbers of the full system) -/
 
@@ -238,25 +247,6 @@ def transpose (A : Mat) (ncols : Nat) : Mat := (List.range ncols).map (fun j => 
 def matMul (A B : Mat) (ncols : Nat) : Mat :=
   let bt := transpose B ncols
   A.map (fun row => bt.map (fun c => dot row c))
-def identity (n : Nat) : Mat :=
-  (List.range n).map (fun i => (List.range n).map (fun j => if i = j then (1 : Rat) else 0))
-
-/-- one Gauss–Jordan step on column `c` of an augmented matrix whose rows `< c` are finished -/
-def gjStep (c : Nat) (M : Mat) : Option Mat :=
-  let top := M.take c
-  let bot := M.drop c
-  match bot.find? (fun row => row.getD c 0 != 0) with
-  | none => none
-  | some p =>
-    let pn := p.map (· / p.getD c 0)
-    let elim := fun (row : Vec) => List.zipWith (fun a b => a - row.getD c 0 * b) row pn
-    some (top.map elim ++ pn :: (bot.erase p).map elim)
-
-/-- exact inverse of an `n × n` matrix (`none` = singular) -/
-def inverse (A : Mat) (n : Nat) : Option Mat :=
-  ((List.range n).foldlM (fun M c => gjStep c M) (List.zipWith (· ++ ·) A (identity n))).map
-    (fun M => M.map (·.drop n))
-
 /-- what `assemble_schur_complement_system` keeps in `self._Schur_complement` -/
 structure Stored where
   inv : Mat
@@ -288,5 +278,39 @@ def reduced (b : Blocks) (inv : Mat) (np ns : Nat) : Mat × Vec :=
 /-- `expand_schur_complement_solution` -/
 def expandStored (s : Stored) (xp : Vec) : Vec :=
   expand s.n s.pcols s.scols xp (mulVec s.inv (vsub s.bs (mulVec s.Asp xp)))
+
+/-- one successful `assemble_schur_complement_system`: reduced system + what is stored -/
+structure SplitResult where
+  S : Mat
+  rhs : Vec
+  stored : Stored
+
+/-- the numerical part of `assemble_schur_complement_system` for given row / column lists;
+    `none` = the secondary block is not square (the code's last assertion) or singular -/
+def assembleSplit (J : Mat) (r : Vec) (n : Nat) (prows srows pcols scols : List Nat) :
+    Option SplitResult :=
+  if srows.length != scols.length then none else
+  let b := blocksOf J r prows srows pcols scols
+  match C37.inverse b.Ass with
+  | none => none
+  | some inv =>
+    some ⟨(reduced b inv pcols.length scols.length).1, (reduced b inv pcols.length scols.length).2,
+      ⟨inv, b.bs, b.Asp, pcols, scols, n⟩⟩
+
+/-- exact solve of the reduced system (`none`: not square or singular) -/
+def solveReduced (S : Mat) (rhs : Vec) (np : Nat) : Option Vec :=
+  if S.length != np then none else
+  match C37.inverse S with
+  | none => none
+  | some Sinv => some (mulVec Sinv rhs)
+
+/-- reduce, solve, expand -/
+def schurSolve (J : Mat) (r : Vec) (n : Nat) (prows srows pcols scols : List Nat) : Option Vec :=
+  match assembleSplit J r n prows srows pcols scols with
+  | none => none
+  | some sp =>
+    match solveReduced sp.S sp.rhs pcols.length with
+    | none => none
+    | some xp => some (expandStored sp.stored xp)
 
 end PorepyVerif.C07
